@@ -31,6 +31,7 @@ pub enum Error {
     InvalidFloat,
     ExpectBinOpToken,
     DivideByZero,
+    NumberOverflow,
 }
 
 #[cfg(not(tarpaulin_include))]
@@ -69,6 +70,7 @@ impl fmt::Display for Error {
             InvalidFloat => write!(f, "invalid float"),
             ExpectBinOpToken => write!(f, "expect bin op token"),
             DivideByZero => write!(f, "divide by zero"),
+            NumberOverflow => write!(f, "number overflow"),
         }
     }
 }
